@@ -20,7 +20,7 @@ import (
 )
 
 const Rule = "one op = one slice handed to one sort. Comparison sorts get key:id elements and a comparator on the " +
-	"key only (asc, desc, and the non-injective preorder key%3), so a wrong permutation or a lost/duplicated element " +
+	"key only (asc, desc, the non-injective preorder key%3, and the un-normalised results a-b, 7*(a-b), b-a, 7*(b-a), 5*(a%3-b%3)), so a wrong permutation or a lost/duplicated element " +
 	"is visible; radix sorts get 64-bit words (every byte position and both signs) or byte strings over " +
 	"{00,61,62,7f,80,fe,ff} with shared prefixes. non-trivial = some op of the case had >= 2 elements not already in " +
 	"order and, for MSD / 3-way radix sorts, more than CUTOFF+1 = 16 elements in the range (a counting or " +
@@ -39,7 +39,7 @@ func sgn(a, b int) int {
 }
 
 func cls(name string, k int) int {
-	if name == "mod3" {
+	if name == "mod3" || name == "mod3x5" {
 		return k % 3
 	}
 	return k
@@ -51,6 +51,17 @@ func cmpOf(name string) generic.CompareFunc[elem] {
 		return func(a, b elem) int { return sgn(b.k, a.k) }
 	case "mod3":
 		return func(a, b elem) int { return sgn(a.k%3, b.k%3) }
+	// comparators whose results are NOT normalised to -1/0/+1 (only the sign is meaningful)
+	case "diff":
+		return func(a, b elem) int { return a.k - b.k }
+	case "diff7":
+		return func(a, b elem) int { return 7 * (a.k - b.k) }
+	case "rdiff":
+		return func(a, b elem) int { return b.k - a.k }
+	case "rdiff7":
+		return func(a, b elem) int { return 7 * (b.k - a.k) }
+	case "mod3x5":
+		return func(a, b elem) int { return (a.k%3 - b.k%3) * 5 }
 	}
 	return func(a, b elem) int { return sgn(a.k, b.k) }
 }
@@ -780,7 +791,7 @@ func randKeys(r *hx.Rand, n int) []int {
 }
 
 var cmpAlgos = []string{"selection", "insertion", "shell", "merge", "mergerec", "quick3way", "heap", "quickcore", "quick"}
-var cmpNames = []string{"asc", "desc", "mod3"}
+var cmpNames = []string{"asc", "desc", "mod3", "diff", "diff7", "rdiff", "rdiff7", "mod3x5"}
 
 var specialWords = []uint64{0, 1, 0x7f, 0x80, 0xff, 0x100, 0x7fffffffffffffff, 0x8000000000000000, 0xffffffffffffffff,
 	0x8000000000000001, 0xfffffffffffffffe, 0x00ff00ff00ff00ff, 0xff00ff00ff00ff00, 0x0100000000000000, 0x0101010101010101,
@@ -941,8 +952,8 @@ func Main(run *hx.Run) {
 	// ---- comparison sorts: random slices, lengths 0-64 crossing 15/16/17, three comparators
 	for _, algo := range cmpAlgos {
 		r := run.R.Fork(algo)
-		for k := 0; k < run.Scale(24); k++ {
-			cmp := cmpNames[k%3]
+		for k := 0; k < run.Scale(32); k++ {
+			cmp := cmpNames[k%len(cmpNames)]
 			var ops []string
 			for j := 0; j < 4; j++ {
 				ops = append(ops, join("sort", algo, elemsOp(randKeys(r, pickLen(r)))))
@@ -958,7 +969,7 @@ func Main(run *hx.Run) {
 	}
 	for _, algo := range cmpAlgos {
 		for _, cmp := range cmpNames {
-			if cmp != "asc" && !run.Thorough() && algo != "quickcore" && algo != "heap" {
+			if cmp != "asc" && cmp != "diff" && cmp != "mod3x5" && !run.Thorough() && algo != "quickcore" && algo != "heap" {
 				continue
 			}
 			for n := 0; n <= L; n++ {
@@ -1003,7 +1014,7 @@ func Main(run *hx.Run) {
 					ops = append(ops, join("select", strconv.Itoa(kk), elemsOp(keys)))
 				}
 			}
-			do(run, "select", cmpNames[k%3], ops...)
+			do(run, "select", cmpNames[k%len(cmpNames)], ops...)
 		}
 		// outside the precondition (k not in [0,n)): the index panic must agree with the Model
 		do(run, "select", "asc", "select 0 5:0", "select 1 5:0")
@@ -1019,7 +1030,7 @@ func Main(run *hx.Run) {
 				hi := r.Range(lo, n-1)
 				ops = append(ops, join("partition", strconv.Itoa(lo), strconv.Itoa(hi), elemsOp(keys)))
 			}
-			do(run, "partition", cmpNames[k%3], ops...)
+			do(run, "partition", cmpNames[k%len(cmpNames)], ops...)
 		}
 	}
 
